@@ -297,11 +297,11 @@ def c02_jobs():
         for ver in (1, 2, 0xFF):
             tier = "quick" if (n in quick and ver == 1) or (n in (24, 40) and ver == 0xFF) else "thorough"
             jobs.append(Job("dec.cpp", "h_dec_fresh", defs={"N": n, "VER": ver}, unwind=max(n, 8) * 4 + 20, unwindset=dec_unwindset(n), tier=tier,
-                            in_max=2 * n + 8, mem_gb=6, sym="every frame byte except the CMP version byte (incl. all length/type/flag fields); second fill of the buffer",
+                            in_max=2 * n + 8, mem_gb=6, timeout=400 if (tier == "quick" and n >= 40) else None, sym="every frame byte except the CMP version byte (incl. all length/type/flag fields); second fill of the buffer",
                             outside="frames > 56 bytes"))
     for n, pt in ((60, 1), (61, 1), (62, 1), (63, 1), (64, 2), (65, 2), (66, 2)):
-        jobs.append(Job("dec.cpp", "h_dec_fresh", defs={"N": n, "VER": 1, "FMT": 3, "FPT": pt}, unwind=max(n, 8) * 4 + 20, unwindset=dec_unwindset(n), tier="quick" if n in (61, 62, 65) else "thorough",
-                        in_max=2 * n + 8, mem_gb=6, sym="every frame byte except version, message type (status) and the first payload type byte (capture-module / interface status)", outside="frames > 66 bytes"))
+        jobs.append(Job("dec.cpp", "h_dec_fresh", defs={"N": n, "VER": 1, "FMT": 3, "FPT": pt}, unwind=max(n, 8) * 4 + 20, unwindset=dec_unwindset(n), tier="quick" if n in (62, 65) else "thorough",
+                        in_max=2 * n + 8, mem_gb=6, timeout=400 if n in (62, 65) else None, sym="every frame byte except version, message type (status) and the first payload type byte (capture-module / interface status)", outside="frames > 66 bytes"))
     return jobs
 
 
@@ -731,7 +731,7 @@ def tecmp_jobs():
     for n in range(0, 77):
         add(n, 2, tier="quick" if n in (12, 28, 33, 39, 40, 51, 52, 64, 76) else "thorough")
     # long bus-status messages (property: 0..40 entries)
-    for n, tier in ((28 + 12 + 12 * 22, "quick"), (28 + 12 + 12 * 40, "thorough"), (28 + 12 + 12 * 30 + 5, "thorough")):
+    for n, tier in ((28 + 12 + 12 * 10, "quick"), (28 + 12 + 12 * 22, "thorough"), (28 + 12 + 12 * 40, "thorough"), (28 + 12 + 12 * 30 + 5, "thorough")):
         add(n, 2, tier=tier)
     # bus status with a concrete vendor-data length in the generic part (entries stay 12 bytes whatever it says)
     for n, vdl, tier in ((57, 5, "quick"), (76, 16, "quick"), (64, 5, "thorough"), (64, 12, "thorough"), (76, 0xFFFF, "thorough"), (52, 4, "thorough"), (52, 16, "thorough")):
@@ -818,7 +818,7 @@ def _c02_history():
     to C02 and skipped, the memory checks are not."""
     q5, t5 = c05_shapes(5)
     fam = seq_family(5, 2)
-    jobs = [j for j in seq_jobs(q5 + fam[::16] + seq_agg_family(5, "quick")[::3], t5[::3] + fam[1::5] + seq_agg_family(5, "thorough")[::4]) if j.entry == "h_seq"]
+    jobs = [j for j in seq_jobs(q5 + fam[::32] + seq_agg_family(5, "quick")[::6], t5[::3] + fam[1::5] + seq_agg_family(5, "thorough")[::4]) if j.entry == "h_seq"]
     return jobs
 
 
